@@ -1196,7 +1196,7 @@ def _iterate(U, P, x, K, target, solver, checkpoint=None):
     the error at iteration ``checkpoint[0]`` still exceeds
     ``checkpoint[1]``: no substantial progress)."""
     st_ = {'k': 0, 'err': None, 'x': None, 'diverged': False,
-           'stalled': False, 'qmax': 0.0}
+           'stalled': False, 'qmax': 0.0, 'qmin': np.inf, 'qfirst': None}
     err0 = P.err(x)
     blow = 1e8 * max(err0, P.scale)
 
@@ -1217,7 +1217,15 @@ def _iterate(U, P, x, K, target, solver, checkpoint=None):
             # oscillates through the bound is not "visibly converging"
             if 4 * st_['k'] > 3 * checkpoint[0]:
                 st_['qmax'] = max(st_['qmax'], e)
-            if st_['k'] == checkpoint[0] and st_['qmax'] > checkpoint[1]:
+                st_['qmin'] = min(st_['qmin'], e)
+                if st_['qfirst'] is None:
+                    st_['qfirst'] = e
+            # ... and still has to decrease visibly (3 % over that quarter;
+            # the slowest tails observed, ~k^-0.45, lose 12 %): an iteration
+            # that has settled at a wrong point is not converging
+            if st_['k'] == checkpoint[0] and (
+                    st_['qmax'] > checkpoint[1] or
+                    st_['qmin'] > 0.97 * st_['qfirst']):
                 st_['x'] = toflat(v, P.X)
                 st_['stalled'] = True
                 raise _Stop()
